@@ -93,6 +93,8 @@ func runLease(s LeaseScenario) (info LeaseInfo, v *vstat.Violation, exact bool) 
 		return runHandoff(s)
 	case "waithold":
 		return runWaitHold(s)
+	case "bystander":
+		return runBystander(s)
 	}
 	panic("bad scenario " + s.Kind)
 }
@@ -460,6 +462,70 @@ func runWaitHold(s LeaseScenario) (info LeaseInfo, v *vstat.Violation, exact boo
 		}
 		info.Samples++
 		time.Sleep(L / 5)
+	}
+	return info, nil, false
+}
+
+// bystander: lock A is unlocked while its renewal is in flight (the renewal timer has already fired), and other
+// locks of the same process are acquired in that very window. Whatever Unlock and the late renewal do to the shared
+// timer machinery must not touch the other locks: they stay held - record present, unexpired, contenders excluded -
+// for three leases.
+func runBystander(s LeaseScenario) (info LeaseInfo, v *vstat.Violation, exact bool) {
+	L := time.Duration(s.LeaseMs) * time.Millisecond
+	inner := inmem.New()
+	fa, fo, fc := gated.NewFaulty(inner), gated.NewFaulty(inner), gated.NewFaulty(inner)
+	pa, po, pc := newProvider(fa, L), newProvider(fo, L), newProvider(fc, L)
+	defer pa.Shutdown()
+	defer po.Shutdown()
+	defer pc.Shutdown()
+	ctx := context.Background()
+	a := pa.NewLocker("lease")
+	n := 2 + s.Waiters%3
+	fa.HoldNextCas(s.After)
+	t0 := time.Now()
+	a.Lock()
+	select {
+	case <-fa.Held:
+		info.HeldInFlight = true
+	case <-time.After(L/2 + 5*time.Second):
+		a.Unlock()
+		return info, vstat.V("lease:renewal-missing", "lease %v: no renewal call reached the storage within %v of Lock", L, time.Since(t0)), false
+	}
+	names := make([]string, n)
+	held := make([]interface{ Unlock() }, 0, n)
+	for i := range names {
+		names[i] = fmt.Sprintf("bystander%d", i)
+		lk := po.NewLocker(names[i])
+		lk.Lock() // arms a renewal timer while A's fired one is still referenced by A
+		held = append(held, lk)
+	}
+	defer func() {
+		for _, h := range held {
+			h.Unlock()
+		}
+	}()
+	a.Unlock()
+	close(fa.Resume)
+	t1 := time.Now()
+	for time.Since(t1) < 3*L {
+		time.Sleep(L / 5)
+		info.Samples++
+		now := time.Now()
+		for _, nm := range names {
+			c := pc.NewLocker(nm)
+			if c.TryLock(ctx) {
+				c.Unlock()
+				return info, vstat.V("lease:contender-acquired-while-held", "lease %v: %.1f leases after another lock of the same process was unlocked during its renewal, a contender acquired the held lock %q; storage calls of its holder's provider:%s",
+					L, float64(now.Sub(t1))/float64(L), nm, describeEvents(fo.Events(), t0)), false
+			}
+			if !s.OnlyExcl {
+				r, err := inner.Get(ctx, lockPath+nm)
+				if err != nil || r.ExpiresAt == nil || !r.ExpiresAt.After(now) {
+					return info, vstat.V("lease:record-expired-while-held", "lease %v: %.1f leases after another lock of the same process was unlocked during its renewal, the record of the held lock %q is missing or expired (err=%v); storage calls:%s",
+						L, float64(now.Sub(t1))/float64(L), nm, err, describeEvents(fo.Events(), t0)), false
+				}
+			}
+		}
 	}
 	return info, nil, false
 }
